@@ -108,6 +108,7 @@ func (s *Server) getPayeeTemplates(uri protocol.DocumentURI, content string) map
 		}
 	}
 
+	own := s.GetResolved(uri)
 	var result *analyzer.AnalysisResult
 	if resolved := s.getWorkspaceResolved(uri); resolved != nil {
 		result = s.analyzer.AnalyzeResolved(resolved)
@@ -116,7 +117,13 @@ func (s *Server) getPayeeTemplates(uri protocol.DocumentURI, content string) map
 		result = s.analyzer.Analyze(journal)
 	}
 
-	s.payeeTemplatesCache.Store(uri, result.PayeeTemplates)
+	// an analysis that finished meanwhile has recorded another include tree (and
+	// dropped the cache): what was computed here is then not worth keeping
+	s.docMu.Lock()
+	if s.GetResolved(uri) == own {
+		s.payeeTemplatesCache.Store(uri, result.PayeeTemplates)
+	}
+	s.docMu.Unlock()
 	return result.PayeeTemplates
 }
 
